@@ -1,27 +1,12 @@
 -- root of the library: every property module (the audit files are checked separately)
+import Femio.Props.C02
+import Femio.Props.C04
+import Femio.Props.C05
 import Femio.Props.C07
-import Femio.Lemmas.AttrProps
-import Femio.Lemmas.Bfs
-import Femio.Lemmas.BnB
-import Femio.Lemmas.Boundary
-import Femio.Lemmas.Brick
-import Femio.Lemmas.C12Props
-import Femio.Lemmas.CacheProps
-import Femio.Lemmas.CntProps
-import Femio.Lemmas.CoreProps
-import Femio.Lemmas.GeomProps
-import Femio.Lemmas.GeomProps2
-import Femio.Lemmas.GraphProps
-import Femio.Lemmas.IncidenceStruct
-import Femio.Lemmas.KnnGeom
-import Femio.Lemmas.KnnRefine
-import Femio.Lemmas.LinAlg
-import Femio.Lemmas.Misc1
-import Femio.Lemmas.NpyProps
-import Femio.Lemmas.NumeralProps
-import Femio.Lemmas.ResProps
-import Femio.Lemmas.ResSplit
-import Femio.Lemmas.ScanPos
-import Femio.Lemmas.SurfaceProps
-import Femio.Lemmas.TableProps
-import Femio.Lemmas.UcdProps
+import Femio.Props.C08
+import Femio.Props.C13
+import Femio.Props.C19
+import Femio.Props.C06
+import Femio.Props.C09
+import Femio.Props.C15
+import Femio.Props.C17
